@@ -301,6 +301,7 @@ class C13(runner.Check):
 						out.bump("domain.reference_raised." + type(e).__name__)
 		stale = {}
 		nontrivial = False
+		kept = []            # (call index, returned object, bytes right after the call)
 		qlens = [len(q[0]) for q in case["pool"]]
 		for ci, call in enumerate(case["calls"]):
 			qs = [q for q in call["queries"] if q in refs]
@@ -404,6 +405,7 @@ class C13(runner.Check):
 				continue
 			R = res.numpy()
 			log.log("res", R)
+			kept.append((ci, res, R.tobytes()))
 			if nn is None:
 				if R.shape != (5, len(qs), nT):
 					out.violate("shape", "call %d: result shape %r, expected %r" % (ci,
@@ -436,6 +438,11 @@ class C13(runner.Check):
 					continue
 				self._check_nearest(out, ci, call, qs, refs, R[0], R[5].astype("int64"),
 					R, nT, nn)
+		for ci_, obj, b in kept:
+			if obj.numpy().tobytes() != b:
+				out.violate("earlier_result_mutated", "the tensor returned by call %d was "
+					"changed by a later call in the same session" % ci_, key="mutated")
+				break
 		out.nontrivial = nontrivial
 		out.digest = log.digest()
 		out.sample = {"leg": "sim", "seed": case.get("seed"), "n_targets": nT,
